@@ -376,3 +376,48 @@ contract(RS + "AbstractSummaryReporter.end", props=P, params={"self": "ref:Abstr
          ensures={"problem-listings-printed-iff-some-scenario-failed-or-errored":
                   "G_listing_printed == old(G_listing_printed) + (1 if (self.show_failed_scenarios and "
                   "(len(self._failed_scenarios) > 0 or len(self._errored_scenarios) > 0)) else 0)"})
+
+# -- the collector's traversal: visiting a scenario visits every step of iter(scenario) (background steps included) ----------
+MV = "behave.model_visitor:"
+ghost("nvisit", "int")
+ghost("visit_arg", "array")
+contract("abs:visitor.on_scenario", trusted=True, pos_params=["self", "scenario"], pure=True, result="any",
+         ensures={"continue": "result is None"}, doc="visitor callback (SummaryCollector.on_scenario returns None: continue)")
+contract("abs:ModelVisitor.visit_step", trusted=True, params={"self": "ref:ModelVisitor"}, pos_params=["self", "step"],
+         modifies=["G_nvisit"], ghost_stores=[("visit_arg", "G_nvisit", "step")], result="any",
+         ensures={"visited": "G_nvisit == old(G_nvisit) + 1 and result is None"},
+         doc="visit_step(step) -> visitor.on_step(step) (returns None: continue)")
+shape("ModelVisitor", visitor="any")
+V0 = "old(G_nvisit)"
+VSTEPS = "as_list(all_steps_of(scenario), 'ref:Step')"
+contract(MV + "ModelVisitor.visit_items_of", inline=True)
+contract(MV + "ModelVisitor.should_continue_visit", inline=True)
+contract(MV + "ModelVisitor.visit_many", props=P,
+         params={"self": "ref:ModelVisitor", "iterable": "seq:ref:Step", "visit_func": "any"}, self_classes=["SummaryCollector"],
+         callsites={"visit_func": "abs:ModelVisitor.visit_step.cb"},
+         requires={"a-visit-function-is-given": "not is_none(visit_func)"},
+         modifies=["G_nvisit", "G_visit_arg"],
+         loops=[Loop(invariant={"each-item-so-far-visited-once-in-order":
+                                "G_nvisit == pre(G_nvisit) + _i and forall(lambda k: implies(0 <= k < _i, G_visit_arg(pre(G_nvisit) + k) is _at(k)))",
+                                "earlier-log-kept": "forall(lambda k: implies(k < pre(G_nvisit), G_visit_arg(k) == pre(G_visit_arg(k))))",
+                                "same": "_seq is iterable"})],
+         ensures={"every-item-visited-exactly-once-in-order":
+                  "G_nvisit == %s + len(iterable) and forall(lambda k: implies(0 <= k < len(iterable), G_visit_arg(%s + k) is iterable[k]))" % (V0, V0)})
+contract("abs:ModelVisitor.visit_step.cb", trusted=True, pos_params=["step"], modifies=["G_nvisit"],
+         ghost_stores=[("visit_arg", "G_nvisit", "step")], result="any",
+         ensures={"visited": "G_nvisit == old(G_nvisit) + 1 and result is None"}, doc="the bound method self.visit_step passed as visit_func")
+contract("abs:ModelVisitor.visit_many.steps", trusted=False, pos_params=["self", "iterable", "visit_func"],
+         modifies=["G_nvisit", "G_visit_arg"], result="any",
+         ensures={"every-item-visited-exactly-once-in-order":
+                  "G_nvisit == old(G_nvisit) + len(iterable) and forall(lambda k: implies(0 <= k < len(iterable), "
+                  "G_visit_arg(old(G_nvisit) + k) is iterable[k]))"},
+         doc="call-site view of visit_many (proved above)")
+contract(MV + "ModelVisitor.visit_scenario", props=P,
+         params={"self": "ref:ModelVisitor", "scenario": "ref:Scenario"}, self_classes=["SummaryCollector"],
+         callsites={"self.visitor.on_scenario": "abs:visitor.on_scenario", "self.visit_many": "abs:ModelVisitor.visit_many.steps"},
+         exprs={"iter(container)": ("fresh", "any")},
+         modifies=["G_nvisit", "G_visit_arg", "*._cached_status", "*._background_steps", "*._inherited_steps", "*.status",
+                   "*.hook_failed", "*.duration", "*.exception", "*.exc_traceback", "*.error_message", "*.captured"],
+         ensures={"every-step-of-the-scenario-background-steps-included-is-visited-once-in-order":
+                  "G_nvisit == %s + len(%s) and forall(lambda k: implies(0 <= k < len(%s), G_visit_arg(%s + k) is %s[k]))"
+                  % (V0, VSTEPS, VSTEPS, V0, VSTEPS)})
